@@ -487,6 +487,323 @@ theorem appendDataB_refine (E : Env α) {base : Nat} (aLen : Nat) (bs : List (κ
     rw [h2, hargs, hmap, rr]
     rfl
 
+/-! ### maps -/
+
+/-- a map reference whose entries are all bounded -/
+def MapRefB (h : Heap κ α) : Option Nat → Prop
+  | none => True
+  | some i => i < h.maps.length ∧ ∀ e ∈ (h.maps[i]?).getD [], BoundedS h e.2
+
+/-- what one attribute map shows -/
+def obsMap (h : Heap κ α) (m : Option Nat) : List (κ × List α) := (h.mapEntries m).map (rd h)
+
+theorem obs_attrs (h : Heap κ α) (r : MeshRep) : (obs h r).attrs = r.maps.map (obsMap h) := rfl
+
+theorem Frame.weaken {base base' : Nat} {h h' : Heap κ α} (f : Frame base h h') (hle : base' ≤ base) : Frame base' h h' :=
+  ⟨Nat.le_trans hle f.base_le, f.size_le, fun i hi => f.arr_eq i (Nat.lt_of_lt_of_le hi hle), f.msize_le, f.maps_eq⟩
+
+theorem MapRefB.entries {h : Heap κ α} {m : Option Nat} (b : MapRefB h m) : ∀ e ∈ h.mapEntries m, BoundedS h e.2 := by
+  cases m with
+  | none => intro e he; simp [Heap.mapEntries] at he
+  | some i => intro e he; exact b.2 e (by simpa [Heap.mapEntries] using he)
+
+theorem MapRefB.argOK {h : Heap κ α} {m : Option Nat} (b : MapRefB h m) : ArgOK h.arrays.length h (h.mapEntries m) := by
+  intro e he
+  have be := b.entries e he
+  refine ⟨?_, be⟩
+  rcases be.valid.2 with h0 | h1
+  · exact Or.inr h0
+  · exact Or.inl h1
+
+theorem MapRefB.frame {h h' : Heap κ α} (f : Frame h.arrays.length h h') {m : Option Nat} (b : MapRefB h m) :
+    MapRefB h' m ∧ obsMap h' m = obsMap h m ∧ h'.mapEntries m = h.mapEntries m := by
+  have he : h'.mapEntries m = h.mapEntries m := by
+    cases m with
+    | none => rfl
+    | some i => simp [Heap.mapEntries, f.maps_eq i b.1]
+  refine ⟨?_, ?_, he⟩
+  · cases m with
+    | none => trivial
+    | some i =>
+      refine ⟨Nat.lt_of_lt_of_le b.1 f.msize_le, ?_⟩
+      rw [f.maps_eq i b.1]
+      exact fun e he => (b.2 e he).frame_size f
+  · unfold obsMap
+    rw [he]
+    exact (ArgOK.frame f b.argOK).2
+
+theorem allocMap_bounded {h : Heap κ α} {s : Slice} (es : List (κ × Slice)) :
+    BoundedS (h.allocMap es).1 s ↔ BoundedS h s := Iff.rfl
+
+theorem allocMap_read (h : Heap κ α) (es : List (κ × Slice)) (s : Slice) : (h.allocMap es).1.read s = h.read s := rfl
+
+theorem allocMap_entries (h : Heap κ α) (es : List (κ × Slice)) :
+    (h.allocMap es).1.mapEntries (some (h.allocMap es).2) = es := by
+  simp [Heap.mapEntries, Heap.allocMap]
+
+/-- a freshly made map with bounded entries: bounded map reference showing exactly the entries read -/
+theorem allocMap_refine {h : Heap κ α} {es : List (κ × Slice)} (b : ∀ e ∈ es, BoundedS h e.2) :
+    MapRefB (h.allocMap es).1 (some (h.allocMap es).2) ∧ obsMap (h.allocMap es).1 (some (h.allocMap es).2) = es.map (rd h) := by
+  refine ⟨⟨by simp [Heap.allocMap], ?_⟩, ?_⟩
+  · have := allocMap_entries h es
+    simp only [Heap.mapEntries] at this
+    rw [this]
+    exact b
+  · unfold obsMap
+    rw [allocMap_entries]
+    rfl
+
+theorem appendKind_refine (E : Env α) (aLen bLen : Nat) {h : Heap κ α} {ma mb : Option Nat}
+    (Ba : MapRefB h ma) (Bb : MapRefB h mb) :
+    Frame h.arrays.length h (appendKind E false aLen bLen h ma mb).1 ∧
+      MapRefB (appendKind E false aLen bLen h ma mb).1 (some (appendKind E false aLen bLen h ma mb).2) ∧
+      obsMap (appendKind E false aLen bLen h ma mb).1 (some (appendKind E false aLen bLen h ma mb).2)
+        = pureKind E aLen bLen (obsMap h ma) (obsMap h mb) := by
+  simp only [appendKind, Bool.false_eq_true, if_false]
+  have hbv : ∀ k, hasKeyV ((h.mapEntries mb).map (rd h)) k = hasKey (h.mapEntries mb) k := by
+    intro k; rw [rd_eq_mp, hasKeyV_map, hasKey_eq]
+  obtain ⟨f1, inv1, m1⟩ := appendDataA_refine E (h.mapEntries mb) _ hbv bLen (h.mapEntries ma) (Nat.le_refl _)
+    (fin := []) ⟨fun e he => by simp at he, fun e he => by simp at he⟩ Ba.argOK
+  obtain ⟨argsB, hB⟩ := ArgOK.frame f1 Bb.argOK
+  obtain ⟨f2, inv2, m2⟩ := appendDataB_refine E aLen (h.mapEntries mb) f1.base_le' inv1 argsB
+  obtain ⟨mb', mo⟩ := allocMap_refine (h := (appendDataB E aLen (appendDataA E (h.mapEntries mb) bLen h (h.mapEntries ma) []).1
+      (h.mapEntries mb) (appendDataA E (h.mapEntries mb) bLen h (h.mapEntries ma) []).2).1) (fun e he => (inv2.1 e he).2)
+  refine ⟨(f1.trans f2).trans (frame_allocMap f2.base_le' _), mb', ?_⟩
+  rw [mo, m2, hB, m1]
+  rfl
+
+theorem mapsB_frame {h h' : Heap κ α} (f : Frame h.arrays.length h h') {ms : List (Option Nat)}
+    (b : ∀ m ∈ ms, MapRefB h m) : (∀ m ∈ ms, MapRefB h' m) ∧ ms.map (obsMap h') = ms.map (obsMap h) :=
+  ⟨fun m hm => ((b m hm).frame f).1, List.map_congr_left fun m hm => ((b m hm).frame f).2.1⟩
+
+theorem obsMap_headKind (h : Heap κ α) (os : List (Option Nat)) : obsMap h (headKind os) = headV (os.map (obsMap h)) := by
+  cases os <;> rfl
+
+theorem headKind_B {h : Heap κ α} {os : List (Option Nat)} (b : ∀ m ∈ os, MapRefB h m) : MapRefB h (headKind os) := by
+  cases os with
+  | nil => trivial
+  | cons m _ => exact b m (List.mem_cons_self ..)
+
+theorem appendMapsB_refine (E : Env α) (aLen bLen : Nat) (os : List (Option Nat)) :
+    ∀ {h : Heap κ α} (_ : ∀ m ∈ os, MapRefB h m),
+    Frame h.arrays.length h (appendMapsB E false aLen bLen h os).1 ∧
+      (∀ m ∈ (appendMapsB E false aLen bLen h os).2, MapRefB (appendMapsB E false aLen bLen h os).1 m) ∧
+      (appendMapsB E false aLen bLen h os).2.map (obsMap (appendMapsB E false aLen bLen h os).1)
+        = pureMapsB E aLen bLen (os.map (obsMap h)) := by
+  induction os with
+  | nil => intro h _; exact ⟨Frame.refl (Nat.le_refl _), fun m hm => by simp [appendMapsB] at hm, rfl⟩
+  | cons mb os ih =>
+    intro h B
+    obtain ⟨f1, b1, o1⟩ := appendKind_refine E aLen bLen (h := h) (ma := none) (mb := mb) trivial (B mb (List.mem_cons_self ..))
+    obtain ⟨B', hB'⟩ := mapsB_frame f1 (fun m hm => B m (List.mem_cons_of_mem _ hm))
+    obtain ⟨f2, b2, o2⟩ := ih B'
+    obtain ⟨b1', o1', _⟩ := b1.frame f2
+    simp only [appendMapsB]
+    refine ⟨f1.trans (f2.weaken f1.size_le), ?_, ?_⟩
+    · intro m hm
+      rcases List.mem_cons.mp hm with rfl | hm
+      · exact b1'
+      · exact b2 m hm
+    · simp only [List.map_cons, pureMapsB]
+      rw [o2, hB', o1', o1]
+      rfl
+
+theorem appendMaps_refine (E : Env α) (aLen bLen : Nat) (ms : List (Option Nat)) :
+    ∀ (os : List (Option Nat)) {h : Heap κ α} (_ : ∀ m ∈ ms, MapRefB h m) (_ : ∀ m ∈ os, MapRefB h m),
+    Frame h.arrays.length h (appendMaps E false aLen bLen h ms os).1 ∧
+      (∀ m ∈ (appendMaps E false aLen bLen h ms os).2, MapRefB (appendMaps E false aLen bLen h ms os).1 m) ∧
+      (appendMaps E false aLen bLen h ms os).2.map (obsMap (appendMaps E false aLen bLen h ms os).1)
+        = pureMaps E aLen bLen (ms.map (obsMap h)) (os.map (obsMap h)) := by
+  induction ms with
+  | nil => intro os h _ Bo; simp only [appendMaps, List.map_nil, pureMaps]; exact appendMapsB_refine E aLen bLen os Bo
+  | cons ma ms ih =>
+    intro os h Bm Bo
+    obtain ⟨f1, b1, o1⟩ := appendKind_refine E aLen bLen (h := h) (ma := ma) (mb := headKind os)
+      (Bm ma (List.mem_cons_self ..)) (headKind_B Bo)
+    obtain ⟨Bm', hBm'⟩ := mapsB_frame f1 (fun m hm => Bm m (List.mem_cons_of_mem _ hm))
+    obtain ⟨Bo', hBo'⟩ := mapsB_frame f1 (ms := os.tail) (fun m hm => Bo m (List.mem_of_mem_tail hm))
+    obtain ⟨f2, b2, o2⟩ := ih os.tail Bm' Bo'
+    obtain ⟨b1', o1', _⟩ := b1.frame f2
+    simp only [appendMaps]
+    refine ⟨f1.trans (f2.weaken f1.size_le), ?_, ?_⟩
+    · intro m hm
+      rcases List.mem_cons.mp hm with rfl | hm
+      · exact b1'
+      · exact b2 m hm
+    · simp only [List.map_cons, pureMaps]
+      rw [o2, hBm', hBo', o1', o1, obsMap_headKind, List.map_tail]
+
+/-! ### indices, materials, the whole `Append` -/
+
+/-- `dst := make([]T, 0, len(x)+len(y)); dst = append(dst, x...); dst = append(dst, y...)` -/
+theorem twoAppends_refine (E : Env α) {g : Heap κ α} {x y : Slice} (bx : BoundedS g x) (by_ : BoundedS g y) :
+    let g2 := (g.alloc (List.replicate (x.len + y.len) E.zero)).1
+    let t0 : Slice := ⟨g.arrays.length, 0, 0, x.len + y.len⟩
+    let t1 := goAppend E g2 t0 (g2.read x)
+    let t2 := goAppend E t1.1 t1.2 (t1.1.read y)
+    Frame g.arrays.length g t2.1 ∧ BoundedS t2.1 t2.2 ∧ t2.1.read t2.2 = g.read x ++ g.read y ∧
+      ∀ t, BoundedS g t → BoundedS t2.1 t ∧ t2.1.read t = g.read t ∧ Disj t t2.2 := by
+  intro g2 t0 t1 t2
+  have f0 : Frame g.arrays.length g g2 := frame_alloc (Nat.le_refl _) _
+  have ft0 : Fresh g.arrays.length t0 := Or.inl (Nat.le_refl _)
+  have bt0 : BoundedS g2 t0 := ⟨Nat.zero_le _, Or.inr ⟨_, alloc_get _ _, by simp [t0]⟩⟩
+  have rt0 : g2.read t0 = [] := by simp [Heap.read, t0]
+  have p1 := goAppend_refine E f0.base_le' ft0 bt0 (g2.read x)
+  have p2 := goAppend_refine E p1.frame.base_le' p1.fresh p1.bounded (t1.1.read y)
+  have rx : g2.read x = g.read x := read_alloc bx _
+  have ry : t1.1.read y = g.read y := by
+    obtain ⟨_, o⟩ := p1.others y (by_.alloc _)
+    have dy : Disj y t0 := by
+      rcases by_.valid.2 with h0 | h1
+      · exact Or.inl h0
+      · exact Or.inr (Or.inr (Nat.ne_of_lt h1))
+    rw [(o dy).1]; exact read_alloc by_ _
+  refine ⟨(f0.trans p1.frame).trans p2.frame, p2.bounded, ?_, ?_⟩
+  · rw [p2.read, p1.read, rt0, rx, ry, List.nil_append]
+  · intro t bt
+    have dt : Disj t t0 := by
+      rcases bt.valid.2 with h0 | h1
+      · exact Or.inl h0
+      · exact Or.inr (Or.inr (Nat.ne_of_lt h1))
+    obtain ⟨b1, o1⟩ := p1.others t (bt.alloc _)
+    obtain ⟨r1, d1⟩ := o1 dt
+    obtain ⟨b2, o2⟩ := p2.others t b1
+    obtain ⟨r2, d2⟩ := o2 d1
+    exact ⟨b2, (r2.trans r1).trans (read_alloc bt _), d2⟩
+
+theorem read_sub (h : Heap κ α) (s : Slice) (p cap' : Nat) :
+    h.read ⟨s.arr, s.off + p, s.len - p, cap'⟩ = (h.read s).drop p := by
+  simp only [Heap.read, List.drop_take, List.drop_drop]
+
+/-- the in-place index shift of `Append` on a bounded slice -/
+theorem shiftTail_refine (E : Env α) {g : Heap κ α} {s : Slice} (bs : BoundedS g s) (p n : Nat) (hp : p ≤ s.len) :
+    (shiftTail E g s p n).read s = (g.read s).take p ++ ((g.read s).drop p).map (E.shift n) ∧
+    (shiftTail E g s p n).maps = g.maps ∧
+    ∀ t, BoundedS g t → BoundedS (shiftTail E g s p n) t ∧ (Disj t s → (shiftTail E g s p n).read t = g.read t) := by
+  refine ⟨?_, rfl, ?_⟩
+  · simp only [shiftTail, read_sub]
+    have hl : (((g.read s).drop p).map (E.shift n)).length = s.len - p := by
+      simp [bs.read_length]
+    rw [read_write_self bs p _ (by rw [hl]; omega), hl]
+    have : (g.read s).drop (p + (s.len - p)) = [] := by
+      apply List.drop_of_length_le; rw [bs.read_length]; omega
+    rw [this, List.append_nil]
+  · intro t bt
+    refine ⟨bt.write _ _ _, fun d => ?_⟩
+    simp only [shiftTail]
+    rcases d with d | d | d
+    · exact read_write_other (Or.inl (by have := bt.1; omega)) _ _
+    · have h0 : s.len = 0 := by have := bs.1; omega
+      have : g.read ⟨s.arr, s.off + p, s.len - p, s.cap - p⟩ = [] := by
+        simp [Heap.read, h0]
+      rw [this]
+      simp only [List.map_nil]
+      simp only [Heap.read, Heap.array, Heap.write, List.getElem?_modify]
+      cases g.arrays[t.arr]? <;> simp
+    · exact read_write_other (Or.inr d) _ _
+
+/-- a mesh representation all of whose slices are bounded -/
+def MeshRep.Bounded (h : Heap κ α) (r : MeshRep) : Prop :=
+  BoundedS h r.indices ∧ BoundedS h r.materials ∧ ∀ m ∈ r.maps, MapRefB h m
+
+theorem attrLen_obs {h : Heap κ α} {r : MeshRep} (b : r.Bounded h) : attrLen h r = attrLenObs (obs h r) := by
+  have key : (obs h r).attrs.reverse.flatMap id = (r.maps.reverse.flatMap fun m => h.mapEntries m).map (rd h) := by
+    rw [obs_attrs, ← List.map_reverse, List.flatMap_map, List.map_flatMap]
+    rfl
+  unfold attrLen attrLenObs
+  rw [key]
+  cases hl : (r.maps.reverse.flatMap fun m => h.mapEntries m) with
+  | nil => rfl
+  | cons e rest =>
+    simp only [List.map_cons, rd]
+    have he : e ∈ (r.maps.reverse.flatMap fun m => h.mapEntries m) := by rw [hl]; exact List.mem_cons_self ..
+    obtain ⟨m, hm, hem⟩ := List.mem_flatMap.mp he
+    exact ((b.2.2 m (List.mem_reverse.mp hm)).entries e hem).read_length.symm
+
+theorem obsMap_keep {g g' : Heap κ α} (hm : ∀ i, i < g.maps.length → g'.maps[i]? = g.maps[i]?)
+    (hr : ∀ t, BoundedS g t → g'.read t = g.read t) {mp : Option Nat} (b : MapRefB g mp) :
+    obsMap g' mp = obsMap g mp := by
+  have he : g'.mapEntries mp = g.mapEntries mp := by
+    cases mp with
+    | none => rfl
+    | some i => simp [Heap.mapEntries, hm i b.1]
+  unfold obsMap
+  rw [he]
+  apply List.map_congr_left
+  intro e he'
+  simp only [rd]
+  rw [hr e.2 (b.entries e he')]
+
+theorem MeshRep.Bounded.frame {h h' : Heap κ α} (f : Frame h.arrays.length h h') {r : MeshRep} (b : r.Bounded h) :
+    r.Bounded h' ∧ obs h' r = obs h r :=
+  ⟨⟨b.1.frame_size f, b.2.1.frame_size f, fun m hm => ((b.2.2 m hm).frame f).1⟩,
+   obs_frame f ⟨b.1.valid, b.2.1.valid, fun m hm => by
+     have bm := b.2.2 m hm
+     cases m with
+     | none => trivial
+     | some i => exact ⟨bm.1, fun e he => (bm.2 e he).valid⟩⟩⟩
+
+/-- **`Append` refines its pure meaning**: the observable value of what `appendCopy` returns is `pureAppend` of the
+    observable values of its arguments — whatever the heap looks like, wherever the arrays are, whatever the growth policy -/
+theorem appendCopy_refine (E : Env α) {h : Heap κ α} {m o : MeshRep} (bm : m.Bounded h) (bo : o.Bounded h) :
+    (appendCopy E h m o).map (fun x => obs x.1 x.2) = pureAppend E (obs h m) (obs h o) := by
+  unfold appendCopy pureAppend
+  have ht : ∀ r : MeshRep, (obs h r).topo = r.topo := fun _ => rfl
+  rw [ht, ht]
+  split
+  · rfl
+  · simp only [Option.map_some, Option.some.injEq]
+    obtain ⟨fm, bM, oM⟩ := appendMaps_refine E (attrLen h m) (attrLen h o) m.maps o.maps bm.2.2 bo.2.2
+    generalize appendMaps E false (attrLen h m) (attrLen h o) h m.maps o.maps = rm at fm bM oM ⊢
+    -- the arguments' index and material slices in the heap after the maps
+    have rdg : ∀ t, BoundedS h t → BoundedS rm.1 t ∧ rm.1.read t = h.read t :=
+      fun t bt => ⟨bt.frame_size fm, read_frame_valid fm bt.valid⟩
+    obtain ⟨bx, rx⟩ := rdg _ bm.1
+    obtain ⟨by_, ry⟩ := rdg _ bo.1
+    obtain ⟨bu, ru⟩ := rdg _ bm.2.1
+    obtain ⟨bv, rv⟩ := rdg _ bo.2.1
+    obtain ⟨fA, bA, rA, oA⟩ := twoAppends_refine E bx by_
+    generalize goAppend E (goAppend E (rm.1.alloc (List.replicate (m.indices.len + o.indices.len) E.zero)).1
+        ⟨rm.1.arrays.length, 0, 0, m.indices.len + o.indices.len⟩
+        ((rm.1.alloc (List.replicate (m.indices.len + o.indices.len) E.zero)).1.read m.indices)).1 _ _ = t2
+      at fA bA rA oA ⊢
+    obtain ⟨bu2, ru2, _⟩ := oA _ bu
+    obtain ⟨bv2, rv2, _⟩ := oA _ bv
+    obtain ⟨fB, bB, rB, oB⟩ := twoAppends_refine E bu2 bv2
+    generalize goAppend E (goAppend E (t2.1.alloc (List.replicate (m.materials.len + o.materials.len) E.zero)).1
+        ⟨t2.1.arrays.length, 0, 0, m.materials.len + o.materials.len⟩
+        ((t2.1.alloc (List.replicate (m.materials.len + o.materials.len) E.zero)).1.read m.materials)).1 _ _ = u2
+      at fB bB rB oB ⊢
+    obtain ⟨bt2, rt2, dt2⟩ := oB _ bA
+    have hlen : t2.2.len = m.indices.len + o.indices.len := by
+      rw [← bA.read_length, rA, List.length_append, bx.read_length, by_.read_length]
+    obtain ⟨rS, mS, oS⟩ := shiftTail_refine E bt2 m.indices.len (attrLen h m) (by omega)
+    -- field by field
+    have hidx : (shiftTail E u2.1 t2.2 m.indices.len (attrLen h m)).read t2.2
+        = h.read m.indices ++ (h.read o.indices).map (E.shift (attrLenObs (obs h m))) := by
+      rw [rS, rt2, rA, rx, ry, ← attrLen_obs bm]
+      have hl : (h.read m.indices).length = m.indices.len := bm.1.read_length
+      rw [List.take_left' hl, List.drop_left' hl]
+    have hmat : (shiftTail E u2.1 t2.2 m.indices.len (attrLen h m)).read u2.2
+        = h.read m.materials ++ h.read o.materials := by
+      rw [(oS _ bB).2 dt2.symm, rB, ru2, rv2, ru, rv]
+    have hattr : rm.2.map (obsMap (shiftTail E u2.1 t2.2 m.indices.len (attrLen h m)))
+        = pureMaps E (attrLenObs (obs h m)) (attrLenObs (obs h o)) (obs h m).attrs (obs h o).attrs := by
+      rw [obs_attrs, obs_attrs, ← attrLen_obs bm, ← attrLen_obs bo, ← oM]
+      apply List.map_congr_left
+      intro mp hmp
+      apply obsMap_keep (g := rm.1) _ _ (bM mp hmp)
+      · intro i hi
+        rw [mS, fB.maps_eq i (Nat.lt_of_lt_of_le hi fA.msize_le), fA.maps_eq i hi]
+      · intro t bt
+        obtain ⟨b1, r1, d1⟩ := oA t bt
+        obtain ⟨b2, r2, _⟩ := oB t b1
+        rw [(oS t b2).2 d1, r2, r1]
+    show (⟨m.topo, _, _, _⟩ : MeshObs κ α) = _
+    simp only [obs] at hidx hmat ⊢
+    rw [hidx, hmat]
+    congr 1
+
 end fin
 
 end MeshHeap
